@@ -325,6 +325,47 @@ fn render_tx(sd: &SetupD, c: &ContentD, kt: &KeyTab, tx: &Transaction) -> (STx, 
     (STx { version: tx.version.0 as u32, locktime: tx.lock_time.to_consensus_u32(), inputs, outs }, ws, htlc_of)
 }
 
+/// The harness' own statement of the BOLT-3 structure of a counterparty commitment (independent of the
+/// repository's builder, of LDK and of the Lean model): header fields and the multiset of outputs.
+/// Returns a description of the first deviation of `tx` from it.
+fn structure_deviation(sd: &SetupD, c: &ContentD, kt: &KeyTab, obscure: u64, tx: &Transaction) -> Option<String> {
+    if c.commit_num >= (1u64 << 48) { return None; }
+    let obs = obscure ^ c.commit_num;
+    if tx.version.0 != 2 { return Some(format!("version {}", tx.version.0)); }
+    let lt = 0x2000_0000u32 | (obs & 0xff_ffff) as u32;
+    if tx.lock_time.to_consensus_u32() != lt { return Some(format!("locktime {} expected {}", tx.lock_time.to_consensus_u32(), lt)); }
+    if tx.input.len() != 1 { return Some(format!("{} inputs", tx.input.len())); }
+    let i = &tx.input[0];
+    let sq = 0x8000_0000u32 | (obs >> 24) as u32;
+    if i.sequence.0 != sq { return Some(format!("sequence {} expected {}", i.sequence.0, sq)); }
+    let tb: &[u8] = i.previous_output.txid.as_ref();
+    if tb != &txid_bytes(sd.txid as i64)[..] { return Some("funding txid".into()); }
+    // BOLT-2 limits the funding output index to u16; above that only the truncation the code performs is known
+    if sd.vout < 65536 && i.previous_output.vout != sd.vout { return Some(format!("funding vout {} expected {}", i.previous_output.vout, sd.vout)); }
+    if !i.script_sig.is_empty() || !i.witness.is_empty() { return Some("non-empty scriptSig/witness".into()); }
+    let z = ldk_anchors(sd.ctype);
+    let n = c.htlcs.len();
+    let mut exp: Vec<(u64, Vec<u8>)> = Vec::new();
+    if c.to_cs > 0 { exp.push((c.to_cs, spk_bytes(&if z { Spk::Wsh(Tpl::RemoteA(5)) } else { Spk::Wpkh(5) }, kt))); }
+    if c.to_bc > 0 { exp.push((c.to_bc, spk_bytes(&Spk::Wsh(Tpl::Local { rev: 1, delay: sd.holder_delay as i64, delayed: 2 }), kt))); }
+    if z && (c.to_bc > 0 || n > 0) { exp.push((330, spk_bytes(&Spk::Wsh(Tpl::Anchor(6)), kt))); }
+    if z && (c.to_cs > 0 || n > 0) { exp.push((330, spk_bytes(&Spk::Wsh(Tpl::Anchor(7)), kt))); }
+    for h in &c.htlcs {
+        let t = if h.0 { Tpl::Off { csv: z, rev: 1, k1: 4, k2: 3, hash: h.2, hashlen: 20 } }
+                else { Tpl::Recv { csv: z, rev: 1, k1: 4, hash: h.2, hashlen: 20, k2: 3, cltv: h.3 as i64 } };
+        exp.push((h.1, spk_bytes(&Spk::Wsh(t), kt)));
+    }
+    let got: Vec<(u64, Vec<u8>)> = tx.output.iter().map(|o| (o.value.to_sat(), o.script_pubkey.as_bytes().to_vec())).collect();
+    if got.windows(2).any(|w| w[0] > w[1]) { return Some("outputs not in BIP69 order".into()); }
+    exp.sort();
+    if exp != got {
+        let missing: Vec<String> = exp.iter().filter(|e| !got.contains(e)).map(|e| format!("{}:{}", e.0, hex::encode(&e.1))).collect();
+        let extra: Vec<String> = got.iter().filter(|e| !exp.contains(e)).map(|e| format!("{}:{}", e.0, hex::encode(&e.1))).collect();
+        return Some(format!("outputs differ: missing [{}] unexpected [{}] ({} vs {} outputs)", missing.join(","), extra.join(","), exp.len(), got.len()));
+    }
+    None
+}
+
 fn htlc_weight(sd: &SetupD, offered: bool) -> u64 {
     match (offered, ldk_anchors(sd.ctype)) { (true, true) => 666, (true, false) => 663, (false, true) => 706, (false, false) => 703 }
 }
@@ -585,6 +626,17 @@ impl C04 {
             P1Res::Ok(sig, cs, bc, canon_bytes) => {
                 cx.live = None;
                 co.tags.insert(format!("p1:accept:{}", label));
+                // every witness script phase 1 accepted must be the one the output commits to
+                if ws.len() != tx.output.len() {
+                    co.violations.push(Violation { kind: "witscript-not-committed".into(), desc: format!("phase 1 accepted {} witness scripts for {} outputs", ws.len(), tx.output.len()), at });
+                } else {
+                    for (oi, (o, w)) in tx.output.iter().zip(ws.iter()).enumerate() {
+                        if o.script_pubkey.is_p2wsh() && o.script_pubkey.as_bytes()[2..] != sha256::Hash::hash(w).to_byte_array()[..] {
+                            co.violations.push(Violation { kind: "witscript-not-committed".into(), desc: format!("phase 1 accepted for output {} a witness script that does not hash to its script_pubkey: {}", oi, hex::encode(w)), at });
+                            break;
+                        }
+                    }
+                }
                 if !verify_commit_sig(&kt, sd.chan_value, &canon_bytes, &sig) {
                     co.violations.push(Violation { kind: "sig-not-canonical".into(), desc: format!("phase-1 signature does not verify under the funding key against the canonical tx of the recorded content ({} {})", cs, bc), at });
                 }
@@ -648,7 +700,8 @@ impl Group for C04 {
          with duplicate hashes/values/cltv, values around the feerate- and type-dependent dust thresholds, one balance 0 or near 330, \
          commitment numbers up to 2^48); per content the real LDK transaction is rendered and compared with the Lean canon, real phase 2 \
          and phase 1 are run, and ~25 structured single-field mutations (version, locktime, sequence, outpoint, values, order, \
-         extra/missing outputs, every script-template parameter in spk and/or witness script) plus ~16 raw byte flips of tx and witness \
+         extra/missing outputs, an extra/missing witness script, to_remote of the other channel type, every script-template \
+         parameter in spk and/or witness script) plus ~16 raw byte flips of tx and witness \
          scripts go to the real phase 1; a case is non-trivial when phase 2 and phase-1(canon) accept a content with at least one HTLC \
          and at least one mutation is refused"
     }
@@ -707,7 +760,10 @@ impl Group for C04 {
                         Err(e) => { co.tags.insert("content:no-channel".into()); format!("no-channel {}", e) }
                         Ok(live) => match ldk_tx(live, &sd, &c) {
                             Err(e) => { cx.live = None; if e == "panic" { co.tags.insert("content:panic".into()); "panic".into() } else { e } }
-                            Ok((tx, kt, _)) => {
+                            Ok((tx, kt, obs)) => {
+                                if let Some(dev) = structure_deviation(&sd, &c, &kt, obs, &tx) {
+                                    co.violations.push(Violation { kind: "canon-structure-differs".into(), desc: format!("the transaction the signer builds for this content is not the BOLT-3 commitment of the negotiated parameters: {}", dev), at: i });
+                                }
                                 let (stx, ws, htlc_of) = render_tx(&sd, &c, &kt, &tx);
                                 let ldk_bytes = cons_serialize(&tx);
                                 let own = serialize(&stx, &kt);
@@ -733,8 +789,9 @@ impl Group for C04 {
                         co.tags.insert("p2:after-restart".into());
                         fresh_base(&sd, &c).and_then(|l| restore(l, &sd, &c))
                     } else { fresh(&sd, &c) };
+                    let after_restart = cx.restart_next;
                     cx.restart_next = false;
-                    match built {
+                    let l2: String = match built {
                         Err(_) => { cx.p2 = Some(None); co.tags.insert("p2:no-channel".into()); "reject".into() }
                         Ok(live) => { let r2 = real_p2(&live, &sd, &c); match r2 {
                             P2Res::Ok(sig, hsigs) => {
@@ -758,6 +815,23 @@ impl Group for C04 {
                                     }
                                 }
                                 if !c.htlcs.is_empty() { saw_accept_htlc = true; }
+                                // the content the signer recorded as validated must be the content it signed
+                                let rec = live.node.with_channel(&live.id, |chan| Ok(chan.enforcement_state.current_counterparty_commit_info.clone())).ok().flatten();
+                                let key = |h: &HTLCInfo2| (h.value_sat, h.payment_hash.0, h.cltv_expiry);
+                                let (mut eo, mut er) = c.lists();
+                                eo.sort_by_key(key); er.sort_by_key(key);
+                                let ok = match &rec {
+                                    None => false,
+                                    Some(r) => {
+                                        let (mut ro, mut rr) = (r.offered_htlcs.clone(), r.received_htlcs.clone());
+                                        ro.sort_by_key(key); rr.sort_by_key(key);
+                                        r.is_counterparty_broadcaster && r.to_countersigner_value_sat == c.to_cs && r.to_broadcaster_value_sat == c.to_bc
+                                            && r.feerate_per_kw == c.feerate && ro == eo && rr == er
+                                    }
+                                };
+                                if !ok {
+                                    co.violations.push(Violation { kind: "validated-content-differs".into(), desc: format!("phase 2 signed content (to_holder {}, to_counterparty {}, {} HTLCs, feerate {}) but validated/recorded {:?}", c.to_cs, c.to_bc, c.htlcs.len(), c.feerate, rec), at: i });
+                                }
                                 cx.kept = Some(live);
                                 format!("accept {}", hsigs.len())
                             }
@@ -769,7 +843,13 @@ impl Group for C04 {
                             }
                             P2Res::Panic => { cx.p2 = Some(None); co.tags.insert("p2:panic".into()); "reject".into() }
                         } },
+                    };
+                    // C04_restart_same_sig: a restart must not change the verdict (the op carries the verdict of
+                    // the real phase 2 on an identical node that was not restarted)
+                    if after_restart && (t[1] == "ok") != l2.starts_with("accept") {
+                        co.violations.push(Violation { kind: "restart-changes-result".into(), desc: format!("phase 2 without restart: {}, after persist + restore: {}", t[1], l2), at: i });
                     }
+                    l2
                 }
                 "restart" => {
                     let sd = cx.sd.clone().unwrap();
@@ -887,8 +967,8 @@ fn gen_setup_content(rng: &mut Rng) -> (SetupD, ContentD) {
     let delay = |rng: &mut Rng, lenient: bool| -> u16 {
         match rng.below(10) {
             0 => 2016,
-            1 if lenient => 2017,
-            2 if lenient => *rng.pick(&[0u16, 1, 3, 16, 17, 128, 32768, 65535]),
+            1 => rng.range(2001, 2016) as u16,
+            2 if lenient => *rng.pick(&[0u16, 0, 1, 16, 17, 2017, 65535]),
             3 => 4,
             4 => 144,
             _ => rng.range(5, 1000) as u16,
@@ -900,13 +980,17 @@ fn gen_setup_content(rng: &mut Rng) -> (SetupD, ContentD) {
     let sd = SetupD {
         ctype, outbound: rng.chance(1, 2), holder_delay, cp_delay,
         txid: rng.range(1, 250) as u8,
-        vout: match rng.below(8) { 0 => 65535, 1 => 65536 + rng.below(3) as u32, 2 => 0, _ => rng.below(20) as u32 },
+        vout: match rng.below(8) { 0 => 65535, 1 => 65536 + rng.below(3) as u32, 2 => 0, 3 => rng.range(256, 65534) as u32, _ => rng.below(20) as u32 },
         chan_value, mode, point: rng.range(10, 60) as u8,
     };
     let feerate: u32 = match rng.below(8) { 0 => 0, 1 => 253, 2 => 1000, 3 => 7500, 4 => 25_000, 5 => rng.below(100_000) as u32, _ => rng.range(253, 5000) as u32 };
     let n = match rng.below(20) { 0 | 1 | 2 => 0, 3..=12 => rng.range(1, 5), 13..=17 => rng.range(6, 15), _ => rng.range(16, 30) } as usize;
+    // a commitment with a single output (one balance, no HTLC): with anchors exactly one anchor exists
+    let lone = rng.chance(1, 8);
+    let n = if lone { 0 } else { n };
     let w = |off: bool| -> u64 { match (off, ctype == 'z') { (true, true) => 666, (true, false) => 663, (false, true) => 706, (false, false) => 703 } };
-    let thr = |off: bool| -> u64 { if ctype == 'z' { 330 } else { 354 + feerate as u64 * w(off) / 1000 } };
+    // policy-commitment-outputs-trimmed: MIN_CHAN_DUST_LIMIT (354) for zero-fee HTLCs, MIN_DUST_LIMIT (330) + HTLC-tx fee otherwise
+    let thr = |off: bool| -> u64 { if ctype == 'z' { 354 } else { 330 + feerate as u64 * w(off) / 1000 } };
     let mut htlcs: Vec<(bool, u64, i64, u32)> = Vec::new();
     // contents below the dust thresholds are refused by the validator before anything is built: keep them to a quarter of the cases
     let dusty = rng.chance(1, 4);
@@ -944,14 +1028,14 @@ fn gen_setup_content(rng: &mut Rng) -> (SetupD, ContentD) {
     let fee = rate * weight / 1000 + rng.below(2);
     let anchors = if ldk_anchors(ctype) { 660 } else { 0 };
     let avail = chan_value.saturating_sub(sum_htlc + fee + anchors);
-    let (to_cs, to_bc) = match rng.below(12) {
+    let (to_cs, to_bc) = match if lone { rng.below(2) } else { rng.below(12) } {
         0 => (0, avail),
         1 => (avail, 0),
-        2 => (if dusty { 329 } else { *rng.pick(&[330u64, 331]) }, avail.saturating_sub(331)),
-        3 => (avail.saturating_sub(331), if dusty { 329 } else { *rng.pick(&[330u64, 331]) }),
+        2 => (if dusty { 353 } else { *rng.pick(&[354u64, 355]) }, avail.saturating_sub(355)),
+        3 => (avail.saturating_sub(355), if dusty { 353 } else { *rng.pick(&[354u64, 355]) }),
         4 => (avail / 2, avail - avail / 2), // equal or adjacent values
         5 if sum_htlc > 0 => { let v = htlcs[0].1; (v, avail.saturating_sub(v)) } // same value as an HTLC
-        _ => { let a = rng.range(330.min(avail), avail.saturating_sub(330).max(330.min(avail))); (a, avail - a.min(avail)) }
+        _ => { let a = rng.range(354.min(avail), avail.saturating_sub(354).max(354.min(avail))); (a, avail - a.min(avail)) }
     };
     let commit_num = match rng.below(10) {
         0 => 1, 1 => 23, 2 => (1u64 << 48) - 1, 3 => (1u64 << 24) - 1 + rng.below(3), 4 => rng.range(1, (1u64 << 48) - 1),
@@ -991,7 +1075,7 @@ fn build_case(sd: &SetupD, c: &ContentD, rng: &mut Rng, tier: Tier) -> Option<Ve
         format!("intxid {}", (sd.txid as u64 % 250) + 1), format!("invout {}", (sd.vout % 65536) ^ 1), format!("invout {}", sd.vout),
         format!("invout {}", (sd.vout % 65536) + 65536),
         "scriptsig".into(), "witness".into(), "addin".into(),
-        "addwpkh 1000 9".into(), "addwpkh 330 5".into(), "addunk 1000 1".into(), "wslen".into(),
+        "addwpkh 1000 9".into(), "addwpkh 330 5".into(), "addunk 1000 1".into(), "wslen".into(), "wsadd".into(),
     ] { muts.push(m); }
     for i in 0..n {
         let v = stx.outs[i].value;
@@ -1004,7 +1088,7 @@ fn build_case(sd: &SetupD, c: &ContentD, rng: &mut Rng, tier: Tier) -> Option<Ve
         if i + 1 < n { muts.push(format!("swap {} {}", i, i + 1)); }
         if n > 2 { let j = rng.below(n as u64) as usize; if j != i { muts.push(format!("swap {} {}", i, j)); } }
         let fields: Vec<(&str, Vec<i64>)> = match &stx.outs[i].spk {
-            Spk::Wpkh(_) => vec![("key", vec![9, 0, 6]), ("unknown", vec![3])],
+            Spk::Wpkh(_) => { muts.push(format!("retpl {} remoteA", i)); vec![("key", vec![9, 0, 6]), ("unknown", vec![3])] }
             Spk::Wsh(Tpl::Local { delay, .. }) => vec![
                 ("delay", vec![delay + 1, delay - 1, sd.cp_delay as i64, -1, 0, 2016, 2017, 16, 17, 1 << 31]),
                 ("rev", vec![9, 0, 2]), ("delayed", vec![9, 0, 1]), ("unknown", vec![1])],
@@ -1015,7 +1099,7 @@ fn build_case(sd: &SetupD, c: &ContentD, rng: &mut Rng, tier: Tier) -> Option<Ve
                 ("rev", vec![9, 2]), ("k1", vec![9, 3]), ("k2", vec![9, 4, 0]),
                 ("hash", vec![7_000_002]), ("hashlen", vec![19, 21]), ("csv", vec![0]), ("unknown", vec![2])],
             Spk::Wsh(Tpl::Anchor(k)) => vec![("key", vec![9, 0, if *k == 6 { 7 } else { 6 }]), ("unknown", vec![4])],
-            Spk::Wsh(Tpl::RemoteA(_)) => vec![("key", vec![9, 0, 7]), ("unknown", vec![5])],
+            Spk::Wsh(Tpl::RemoteA(_)) => { muts.push(format!("retpl {} wpkh", i)); vec![("key", vec![9, 0, 7]), ("unknown", vec![5])] }
             _ => vec![],
         };
         for (f, vals) in fields {
@@ -1031,7 +1115,8 @@ fn build_case(sd: &SetupD, c: &ContentD, rng: &mut Rng, tier: Tier) -> Option<Ve
     let mut chosen: Vec<String> = Vec::new();
     if muts.len() <= want { chosen = muts; } else {
         // always keep a few of the sharpest ones when present
-        let sharp: Vec<String> = muts.iter().filter(|m| m.contains(" delay ") && (m.starts_with("tpl") )).take(2).cloned().collect();
+        let mut sharp: Vec<String> = muts.iter().filter(|m| m.contains(" delay ") && (m.starts_with("tpl") )).take(2).cloned().collect();
+        sharp.extend(muts.iter().filter(|m| m.starts_with("retpl") || *m == "wsadd").cloned());
         chosen.extend(sharp);
         while chosen.len() < want {
             let m = rng.pick(&muts).clone();
